@@ -181,6 +181,31 @@ def sweep(ctx, n):
                     fails.append({"key": "first-principles:TriangularMesh:inside", "desc": f"{f} of a box given as TriangularMesh differs from the Cuboid closed form at an interior grid point (rel. {e:.2g})",
                                   "replay": {"dimension": np.asarray(cub.dimension).tolist(), "polarization": np.asarray(cub.polarization).tolist(), "observer": obs[k].tolist(), "mesh": a[k].tolist(), "cuboid": b[k].tolist()}})
                     break
+        # a box mesh given with some faces inside-out and the repair switched off, evaluated once, then repaired with
+        # reorient_faces(): the second evaluation must be the field of the body (Cuboid closed form)
+        for _ in range(max(2, n // 10)):
+            nps = np.random.default_rng(rng.randrange(2**31))
+            mesh, cub, obs = lattice_box_case(rng, nps)
+            faces = np.array(mesh.faces)
+            flip = nps.random(len(faces)) < 0.4
+            flip[int(nps.integers(len(faces)))] = True
+            faces[flip] = faces[flip][:, ::-1]
+            raw = magpy.magnet.TriangularMesh(vertices=mesh.vertices, faces=faces, polarization=mesh.polarization, reorient_faces="skip",
+                                              check_open="skip", check_disconnected="skip", check_selfintersecting="skip")
+            far = np.asarray(cub.dimension) * nps.uniform(1.5, 3, 3) * nps.choice([-1, 1], 3)
+            pts = np.concatenate([obs[:6], far[None]])
+            magpy.getB(raw, pts)
+            _ = raw.mesh
+            raw.reorient_faces()
+            for f in ("getB", "getH"):
+                a, b = getattr(magpy, f)(raw, pts), getattr(magpy, f)(cub, pts)
+                e = float(np.max(np.abs(a - b)) / (np.max(np.abs(b)) + 1e-300))
+                done += len(pts)
+                worst["TriangularMesh:repaired-after-use"] = max(worst.get("TriangularMesh:repaired-after-use", 0), e)
+                if not e < 1e-6:
+                    fails.append({"key": "first-principles:TriangularMesh:repaired-after-use", "desc": f"{f} of a box mesh that was evaluated with inward faces and then repaired with reorient_faces() differs from the Cuboid closed form (rel. {e:.2g})",
+                                  "replay": {"dimension": np.asarray(cub.dimension).tolist(), "flipped_faces": np.where(flip)[0].tolist(), "observer": pts[0].tolist()}})
+                    break
         # fine polylines: rings of many short segments in small numbers (nanometre .. centimetre radii) and / or given by
         # vertices far from the object's origin, against an independently written finite-wire formula summed over the segments
         # (a segment is short compared with its coordinates, not with the loop)
